@@ -811,6 +811,31 @@ def gen_late_event_case(rng: random.Random):
     return dict(n=n, types=types, grp=grp, edges=edges, until=until, beh=beh, init=[[1, late]], maxloop=100)
 
 
+def gen_two_path_case(rng: random.Random):
+    """two trigger paths of different delay between one pair: A -> C directly over a time-shifted connection, and A -> B -> C
+    with no delay (the direct one connected first or last).  A steps at every time but produces its (event) output only at
+    one step t0; D consumes C and steps by itself at every time: its step at t0 has to wait for C's step at t0, which A's
+    output causes through B - the smaller of the two path delays is what bounds C's progress."""
+    until = rng.randint(4, 7)
+    t0 = rng.randint(1, until - 2)
+    shift = rng.choice([1, 1, 2])
+    grouped = rng.random() < 0.25
+    types = [rng.choice(['event-based', 'hybrid']), 'event-based', rng.choice(['event-based', 'hybrid']), rng.choice(['time-based', 'hybrid'])]
+    grp = [[0]] * 4 if grouped else [[] for _ in range(4)]
+    direct = dict(a=0, b=2, sa='eo', da='t2', kind='ts', shift=shift, init=False)
+    chain = [dict(a=0, b=1, sa='eo', da='ti', kind='p', shift=0, init=False), dict(a=1, b=2, sa='eo', da='ti', kind='p', shift=0, init=False)]
+    tail = dict(a=2, b=3, sa='eo' if types[2] == 'event-based' or rng.random() < 0.5 else 'po', da='i', kind='p', shift=0, init=False)
+    edges = ([direct] + chain if rng.random() < 0.6 else chain + [direct]) + [tail]
+    if rng.random() < 0.3: edges = [tail] + edges[:-1]
+    outs_a = {f'{t},0': [None, (['eo'] if t == t0 else []) + (['po'] if types[0] == 'hybrid' else [])] for t in range(until + 1)}
+    beh = [{'type': types[0], 'self_steps': {str(t): t + 1 for t in range(until)}, 'outputs': outs_a, 'default_output': [None, []]},
+           {'type': 'event-based', 'self_steps': {}, 'outputs': {}, 'default_output': [None, ['eo']]},
+           {'type': types[2], 'self_steps': {}, 'outputs': {}, 'default_output': [None, ['eo'] + (['po'] if types[2] == 'hybrid' else [])]}]
+    if types[3] == 'time-based': beh.append({'type': 'time-based', 'step_size': 1, 'default_output': [None, ['po']]})
+    else: beh.append({'type': 'hybrid', 'self_steps': {str(t): t + 1 for t in range(until)}, 'outputs': {}, 'default_output': [None, ['po']]})
+    return dict(n=4, types=types, grp=grp, edges=edges, until=until, beh=beh, init=[[0, 0]] if types[0] == 'event-based' else [], maxloop=100)
+
+
 def gen_detour_case(rng: random.Random):
     """two trigger paths between one pair that tie on every tier and differ only in the cutoff: A -> B directly inside a group,
     and A -> M -> B through a simulator M outside the group.  A iterates a weak same-time loop with Q and feeds M only in its
